@@ -46,6 +46,7 @@ type env struct {
 	observe func(ctx context.Context, path string, cb func(tok []byte, seq uint32, hasSeq bool, body string)) (obsHandle, error)
 	closef  func()
 	mid     atomic.Uint32
+	tokens  sync.Map // path -> caller-chosen token
 
 	mu      sync.Mutex
 	dflt    []string // payload tags that reached the default handler
@@ -93,6 +94,20 @@ func newEnv(kind string, blockwise bool) *env {
 			return out
 		}
 		e.observe = func(ctx context.Context, path string, cb func([]byte, uint32, bool, string)) (obsHandle, error) {
+			if tok := e.chosenToken(path); tok != nil {
+				// caller-chosen token: what Observe does, with the token replaced
+				req, err := cc.NewObserveRequest(ctx, path)
+				if err != nil {
+					return nil, err
+				}
+				defer cc.ReleaseMessage(req)
+				req.SetToken(tok)
+				o, err := cc.DoObserve(req, adapt(cb))
+				if err != nil {
+					return nil, err
+				}
+				return o, nil
+			}
 			o, err := cc.Observe(ctx, path, adapt(cb))
 			if err != nil {
 				return nil, err
@@ -112,6 +127,20 @@ func newEnv(kind string, blockwise bool) *env {
 		e.inject = func(m ref.Msg) { sc.Feed(ref.EncodeTCP(m)) }
 		e.sent = func() []ref.Msg { ms, _ := ref.ParseTCPStream(sc.Written()); return ms }
 		e.observe = func(ctx context.Context, path string, cb func([]byte, uint32, bool, string)) (obsHandle, error) {
+			if tok := e.chosenToken(path); tok != nil {
+				// caller-chosen token: what Observe does, with the token replaced
+				req, err := cc.NewObserveRequest(ctx, path)
+				if err != nil {
+					return nil, err
+				}
+				defer cc.ReleaseMessage(req)
+				req.SetToken(tok)
+				o, err := cc.DoObserve(req, adapt(cb))
+				if err != nil {
+					return nil, err
+				}
+				return o, nil
+			}
 			o, err := cc.Observe(ctx, path, adapt(cb))
 			if err != nil {
 				return nil, err
@@ -121,6 +150,14 @@ func newEnv(kind string, blockwise bool) *env {
 		e.closef = func() { _ = cc.Close() }
 	}
 	return e
+}
+
+// chosenToken returns the caller-chosen token registered for path (nil: let the library generate one).
+func (e *env) chosenToken(path string) []byte {
+	if v, ok := e.tokens.Load(path); ok {
+		return v.([]byte)
+	}
+	return nil
 }
 
 func (e *env) nextMID() uint16 { return uint16(e.mid.Add(1)) }
@@ -188,6 +225,9 @@ type ocase struct {
 	// CancelReply: what the peer does with the deregistration GET: "" = 2.05, "refused" = 4.04, "silent" = nothing
 	// (the Cancel call then ends with its context). Whatever Cancel returns, nothing is delivered after it returned.
 	CancelReply string `json:"cancel_reply,omitempty"`
+	// TokenFamily: caller-chosen tokens that differ only in their length (i zero bytes followed by 0x01), and the empty-ish
+	// neighbours 0x00 / 0x00 0x00: each registration still gets notifications for its own token only
+	TokenFamily bool `json:"tokens_differ_in_length_only,omitempty"`
 }
 
 type cbEvent struct {
@@ -221,6 +261,13 @@ func runStream(rec *vr.Rec, c ocase) {
 		obs[i] = o
 		done := make(chan error, 1)
 		idx := i
+		if c.TokenFamily {
+			tok := make([]byte, 1+i/2)
+			if i%2 == 0 {
+				tok[len(tok)-1] = 1 // 01, 00 01, 00 00 01, ...
+			} // odd: 00, 00 00, ... (all zero)
+			e.tokens.Store(fmt.Sprintf("/obs/%d", idx), tok)
+		}
 		go func() {
 			ctx, cancel := context.WithTimeout(context.Background(), 30*time.Second)
 			defer cancel()
@@ -245,7 +292,34 @@ func runStream(rec *vr.Rec, c ocase) {
 			mu.Unlock()
 			done <- err
 		}()
-		req, ok := e.waitRequest(0, i+1)
+		var req ref.Msg
+		var early error
+		returnedEarly := false
+		ok := sim.WaitFor(20*time.Second, func() bool {
+			select {
+			case early = <-done:
+				returnedEarly = true
+				return true
+			default:
+			}
+			k := 0
+			for _, m := range e.sent() {
+				if v, has := m.GetUint(6); m.Code == 1 && has && v == 0 {
+					k++
+					if k == i+1 {
+						req = m
+						return true
+					}
+				}
+			}
+			return false
+		})
+		if returnedEarly {
+			// the call returned before its registration request was even transmitted: nothing can have refused it but the
+			// connection itself (e.g. its token taken for another observation's)
+			rec.Violation("C08/"+c.Kind+"/registration-refused-locally", fmt.Sprintf("observation %d (token %x): Observe returned %v before any request was sent, while the other registrations use different tokens", i, e.chosenToken(fmt.Sprintf("/obs/%d", idx)), early), c)
+			return
+		}
 		if !ok {
 			rec.Inconclusive("observe request not seen")
 			return
@@ -342,6 +416,12 @@ func runStream(rec *vr.Rec, c ocase) {
 				o.want = append(o.want, cbEvent{string(o.tok), n.Seq, true, tag})
 				o.model.last = n.Seq
 			}
+		}
+	}
+	if c.TokenFamily {
+		// notifications under tokens nobody registered, differing from registered ones in length only
+		for k, tok := range [][]byte{{0, 0, 0, 0, 0, 1}, {0, 0, 0, 0, 0, 0, 0}, {0, 0, 0, 0, 0, 0, 0, 1}} {
+			e.inject(e.notification(tok, uint32(100+k), true, fmt.Sprintf("unregistered-token-%d", k), k%2 == 0))
 		}
 	}
 	if !e.sync() {
@@ -588,6 +668,11 @@ func TestRun(t *testing.T) {
 		// registration answered without Observe option: not an observation
 		cases = append(cases, ocase{Kind: kind, First: note{0, false}, Stream: st, CancelAt: -1, NObs: 1})
 	}
+	// tokens that differ only in length
+	for i, kind := range []string{"udp", "tcp", "udp", "tcp"} {
+		st := []note{{2, true}, {3, true}, {5, true}, {4, true}, {9, true}}
+		cases = append(cases, ocase{Kind: kind, First: note{1, true}, Stream: st, CancelAt: []int{-1, 3}[i/2], NObs: 4 + 2*(i/2), TokenFamily: true})
+	}
 	// PRNG streams, several observations
 	for i := 0; i < vr.Scale(24, 600); i++ {
 		n := 200
@@ -624,7 +709,7 @@ func TestRun(t *testing.T) {
 				}
 				c := cases[i]
 				runStream(rec, c)
-				sig := fmt.Sprintf("%s|%v|%v|%d|%v|%d|%s|", c.Kind, c.Blockwise, c.First, c.CancelAt, c.InCb, c.NObs, c.CancelReply)
+				sig := fmt.Sprintf("%s|%v|%v|%d|%v|%d|%s|%v|", c.Kind, c.Blockwise, c.First, c.CancelAt, c.InCb, c.NObs, c.CancelReply, c.TokenFamily)
 				for _, n := range c.Stream {
 					sig += fmt.Sprintf("%d%v,", n.Seq, n.HasSeq)
 				}
